@@ -127,8 +127,9 @@ macro_rules! fb_impl {
 }
 
 /// (w, h, extra) of the instantiated types; MC_C10.CfgsQuick is the first six
-const FB_SIZES: [(usize, usize, usize); 9] =
-    [(1, 1, 0), (3, 2, 0), (3, 2, 2), (5, 1, 0), (9, 2, 0), (9, 2, 2), (13, 3, 0), (16, 1, 1), (1, 17, 0)];
+// (3, 2, 40): an oversized buffer with room for several spare ROWS at every depth
+const FB_SIZES: [(usize, usize, usize); 10] =
+    [(1, 1, 0), (3, 2, 0), (3, 2, 2), (5, 1, 0), (9, 2, 0), (9, 2, 2), (13, 3, 0), (16, 1, 1), (1, 17, 0), (3, 2, 40)];
 
 macro_rules! fb_types {
     ($(($bpp:expr, $ord:expr, $C:ty, $O:ty)),*) => {
@@ -142,6 +143,7 @@ macro_rules! fb_types {
             fb_impl!($C, $O, 13, 3, 0);
             fb_impl!($C, $O, 16, 1, 1);
             fb_impl!($C, $O, 1, 17, 0);
+            fb_impl!($C, $O, 3, 2, 40);
         )*
         fn make_fb(bpp: i64, ord: i64, w: i64, h: i64, x: i64) -> Option<Box<dyn Fb>> {
             $(
@@ -156,6 +158,7 @@ macro_rules! fb_types {
                         (13, 3, 0) => Some(Box::new(Framebuffer::<$C, <$C as PixelColor>::Raw, $O, 13, 3, { buffer_size::<$C>(13, 3) }>::new())),
                         (16, 1, 1) => Some(Box::new(Framebuffer::<$C, <$C as PixelColor>::Raw, $O, 16, 1, { buffer_size::<$C>(16, 1) + 1 }>::new())),
                         (1, 17, 0) => Some(Box::new(Framebuffer::<$C, <$C as PixelColor>::Raw, $O, 1, 17, { buffer_size::<$C>(1, 17) }>::new())),
+                        (3, 2, 40) => Some(Box::new(Framebuffer::<$C, <$C as PixelColor>::Raw, $O, 3, 2, { buffer_size::<$C>(3, 2) + 40 }>::new())),
                         _ => None,
                     };
                 }
